@@ -96,6 +96,7 @@ func (s *PrintCtx) set(e *Entry, lvl Level, timestamp time.Time, stackFrame uint
 	s.setentry(e)
 
 	s.firstMember = false
+	s.clr, s.bg = clrBasic, clrNone // a pooled context must not keep the previous record's colours
 	s.lvl = lvl
 	s.now = timestamp
 	s.stackFrame = stackFrame
